@@ -253,6 +253,10 @@ class Engine:
         if a.t == EXC or b.t == EXC or a.t == FUNC or b.t == FUNC:
             return z3.BoolVal(a.z is b.z)
         if a.t != b.t:
+            h = getattr(self.reg, 'eq_hook', None)
+            if h is not None:
+                r = h(self, st, a, b)
+                if r is not None: return r
             try: t = join_types(a.t, b.t)
             except Unsupported:
                 if isinstance(a.t, OpaqueT) or isinstance(b.t, OpaqueT):
